@@ -90,6 +90,17 @@ def run_to(W, cfg):
         s.to(cfg['to'], cfg['flux_to'])
         s.to(cfg['from'], cfg['valueunit'])
         W.ob('two-argument form round trip', s.value, W.array(v))
+        # several units in one call, one of them naming a unit the spectrum already has (in either position): the others still apply
+        mk = lambda: R.Spectrum(W.array(list(w)), W.array(list(v)), waveunit=cfg['from'], valueunit=cfg['valueunit'])
+        one = mk(); one.to(cfg['flux_to'])
+        t1 = mk(); t1.to(cfg['from'], cfg['flux_to'])
+        W.ob_true('to(own waveunit, flux unit): flux unit recorded', t1.valueunit == cfg['flux_to'])
+        W.ob('to(own waveunit, flux unit) = to(flux unit)', t1.value, one.value)
+        two = mk(); two.to(cfg['to'])
+        t2 = mk(); t2.to(cfg['valueunit'], cfg['to'])
+        W.ob_true('to(own flux unit, waveunit): waveunit recorded', t2.waveunit == cfg['to'])
+        W.ob('to(own flux unit, waveunit) = to(waveunit): grid', t2.wave, two.wave)
+        W.ob('to(own flux unit, waveunit) = to(waveunit): values', t2.value, two.value)
 
 
 def cfg_planck(tier, seed):
